@@ -44,6 +44,8 @@ class ClearMetadataAndDocStringPass(ir.passes.InPlacePass):
                 modified = True
                 logger.debug("Removed metadata from %s nodes", node.name)
             node.metadata_props.clear()
+            if node.doc_string:
+                modified = True
             node.doc_string = None
 
             # Clean up the owning graph/function metadata properties
